@@ -24,7 +24,7 @@
 #include <time.h>
 
 enum { F_BACKGROUND, F_FOREGROUND, F_MULTI_SENDER, F_LONG_MESSAGE, F_FILTERED_CALLS, F_LEVEL_CHANGE, F_EMPTY_MESSAGE, F_SHUTDOWN_WITH_BACKLOG,
-       F_TRUNCATED_NOALLOC, F_TRUNCATED_DIRECT, F_EXACT_FIT, F_LEVEL_NONE, F_DEEP_BACKLOG };
+       F_TRUNCATED_NOALLOC, F_TRUNCATED_DIRECT, F_EXACT_FIT, F_LEVEL_NONE, F_DEEP_BACKLOG, F_WRITER_ERRORS };
 
 /* ================================================================== recording writer */
 #define MAX_REC 4096
@@ -42,7 +42,8 @@ static uint64_t s_arena_used;
 static uint64_t s_rec_overflow;
 static uint64_t s_in_writer, s_writer_overlaps;
 static size_t s_plain_last_len; /* plain on purpose, see writer_write */
-static int s_writer_stall, s_writer_gate;
+static int s_writer_stall, s_writer_gate, s_writer_fails;
+static uint64_t s_writer_errors;
 
 static int writer_write(struct aws_log_writer *writer, const struct aws_string *output) {
     (void)writer;
@@ -77,6 +78,13 @@ static int writer_write(struct aws_log_writer *writer, const struct aws_string *
     s_rec[i].len = output->len;
     memcpy(s_arena + off, aws_string_bytes(output), output->len);
     __atomic_fetch_sub(&s_in_writer, 1, __ATOMIC_RELAXED);
+    /* a writer may fail (disk full ...): in some scenarios every 7th write reports an error. The line has reached
+     * the writer all the same; whatever the channel does with the result, each line string must still be destroyed
+     * exactly once (guard allocator / ASan / balance) */
+    if (__atomic_load_n(&s_writer_fails, __ATOMIC_RELAXED) && i % 7 == 3) {
+        __atomic_fetch_add(&s_writer_errors, 1, __ATOMIC_RELAXED);
+        return aws_raise_error(AWS_ERROR_FILE_WRITE_FAILURE);
+    }
     return AWS_OP_SUCCESS;
 }
 
@@ -416,6 +424,9 @@ static void thr_case(void) {
     aws_logger_set(&T.logger);
     __atomic_store_n(&s_writer_gate, 0, __ATOMIC_RELAXED);
     __atomic_store_n(&s_writer_stall, stall ? 1 : 0, __ATOMIC_RELAXED);
+    bool writer_fails = mon_chance(r, 1, 3);
+    __atomic_store_n(&s_writer_fails, writer_fails ? 1 : 0, __ATOMIC_RELAXED);
+    __atomic_store_n(&s_writer_errors, 0, __ATOMIC_RELAXED);
     pthread_barrier_init(&T.barrier, NULL, (unsigned)T.nsenders + 1);
     pthread_t th[MAX_SENDERS];
     for (int i = 0; i < T.nsenders; ++i) {
@@ -549,6 +560,11 @@ static void thr_case(void) {
         }
     }
     __atomic_store_n(&s_writer_stall, 0, __ATOMIC_RELAXED);
+    __atomic_store_n(&s_writer_fails, 0, __ATOMIC_RELAXED);
+    if (__atomic_load_n(&s_writer_errors, __ATOMIC_RELAXED)) {
+        mon_flag(F_WRITER_ERRORS);
+        mon_count("writer_calls_that_reported_an_error", __atomic_load_n(&s_writer_errors, __ATOMIC_RELAXED));
+    }
     if (background && (uint64_t)expected_lines > written_before_cleanup + 64) {
         mon_flag(F_DEEP_BACKLOG);
     }
@@ -775,7 +791,7 @@ int main(int argc, char **argv) {
     s_arena = malloc(ARENA_SIZE);
     static const char *names[] = {"background_channel", "foreground_channel", "several_senders", "message_over_8000_bytes", "filtered_calls", "level_changed_at_barrier",
                                   "empty_message", "clean_up_with_lines_still_queued", "noalloc_line_truncated", "direct_line_truncated", "line_fills_buffer_exactly",
-                                  "level_none", "clean_up_with_more_than_64_lines_queued"};
+                                  "level_none", "clean_up_with_more_than_64_lines_queued", "writer_reported_errors"};
     for (int i = 0; i < (int)(sizeof(names) / sizeof(names[0])); ++i) {
         mon_flag_name(i, names[i]);
     }
